@@ -172,8 +172,15 @@ def assumed_cuts(fn, assumptions):
             if o is None:
                 continue
             kind, payload, _ = o
+            alt = None
+            if kind == "call" and payload is not None and payload.name.endswith("ops::Try>::branch") and payload.args:
+                pl0 = operand_place(payload.args[0])
+                if pl0 is not None and not pl0[1]:
+                    alt = source_call(fn, pl0[0])
             for a in assumptions:
-                if isinstance(a.value, bool) or not a.matcher(fn, kind, payload):
+                if isinstance(a.value, bool):
+                    continue
+                if not (a.matcher(fn, kind, payload) or (alt is not None and a.matcher(fn, "call", alt))):
                     continue
                 keep = [x[1] for x in t[3] if x[0] == a.value]
                 if not keep:
